@@ -42,7 +42,7 @@ PROPS = {
     "C15": {"families": ["unify_pairs", "unify_sequences", "inline_is_single", "inline_transform_args", "inline_body_aggregate", "inline_new_body_elements", "inline_minimize", "inline_rule_for_agg", "inline_rule_for_body", "inline_execute"], "oracle": "sem"},
     "C16": {"families": ["projection_subsets", "projection_good_split", "projection_rule", "projection_execute_core", "projection_execute"], "oracle": "sem"},
     "C19": {
-        "families": ["verify_enable"],
+        "families": ["verify_enable", "predicate_list"],
         "oracle": "c19",
         "modelled": "VerifyEnable.__call__, option tables, keyword wiring, pipeline order are translated from source "
                     "on every run (Gen/Cli.v); argparse itself, stdin/stdout are observed by running python -m ngo",
@@ -149,6 +149,12 @@ def c19_cases(tier, rng, inputs):
             cases.append({"text": p, "tokens": toks})
     for i, o in (("auto", "auto"), ("", ""), ("b/0", "c/0"), ("b/0,q/1", ""), (None, "p/1"), ("zz/3", "auto")):
         for p in progs[:2]:
+            cases.append({"text": p, "tokens": ["default"], "input": i, "output": o})
+    # one name declared with several arities (the lists are name/arity lists, not name -> arity maps)
+    multi = [i["text"] for i in inputs if i["origin"].startswith("corpus:cli") and "% multi-arity" in i["text"]]
+    for p in multi:
+        for i, o in (("auto", "p/1,p/2"), ("auto", "p/2, p/1"), ("e/2,e/1", "auto"), ("e/1,e/2", "hit/1"),
+                     ("e/2,e/1", "p/2,p/1,hit/1")):
             cases.append({"text": p, "tokens": ["default"], "input": i, "output": o})
     for lvl in ("error", "WARNING", "info", "DEBUG"):
         cases.append({"text": progs[0], "tokens": ["default"], "log": lvl})
